@@ -17,6 +17,7 @@ import (
 
 	nri "github.com/containerd/nri/pkg/api"
 	"github.com/containers/nri-plugins/pkg/agent/podresapi"
+	instmetrics "github.com/containers/nri-plugins/pkg/instrumentation/metrics"
 	"github.com/containers/nri-plugins/pkg/resmgr"
 	podresv1 "k8s.io/kubelet/pkg/apis/podresources/v1"
 
@@ -270,6 +271,16 @@ func (w *world) runC15(or *oracles) {
 	}
 	ops := append([]Op(nil), p.Conc...)
 	cfg0 := w.cfg
+	if p.Metrics {
+		// with the Prometheus exporter on, every handler also takes the
+		// gatherer's lock (after the pipeline lock): a second lock in play
+		if err := instmetrics.VerifEnableGatherer(); err == nil {
+			res.Probe("metrics-gatherer-installed")
+			defer instmetrics.VerifDisableGatherer()
+		} else if os.Getenv("VERIF_TRACE") != "" {
+			fmt.Fprintf(os.Stderr, "TRACE metrics gatherer: %v\n", err)
+		}
+	}
 	// what the invariants say before the phase
 	w.preSigs = map[string]bool{}
 	{
